@@ -116,16 +116,49 @@ func init() {
 
 var seamsS4 = Seams{}
 
+var s4Real = []string{"generated clients and server adapters (generated at check time by the generator from /repo's working tree)", "v2/restli client path (newRequest, formatQueryUrl, tunnelling, Do, DoAndUnmarshal), v2/restli handler/router/filters/Register* adapters", "v2/restlicodec readers and writers, batchkeyset, generated marshalers", "net/http: Client above the transport, Request.Write / ReadRequest / Response.Write / ReadResponse, ServeMux"}
+var s4Stub = []string{"TCP and net/http's per-connection server loop (simulated transport)", "resource implementations (generated MockResource driven by the choice stream)", "goroutine scheduling (token kernel)"}
+var s4Assume = []string{"the binding family (family/family.manifest.json: 12 types, 10 resources) bounds the 'programs' quantifier", "keep-alive, chunked transfer, 100-continue and HTTP/2 are not exercised (transport stub)", "sampled exploration; a clean batch is evidence, not proof"}
+
+// s4b is one S4 batch without the race detector (semantic oracles decide; races are C17's).
+func s4b(scen, cfg string, quick, thorough int) Batch {
+	return Batch{Pkg: "scen/s4", Scen: scen, Cfg: cfg, Seams: seamsS4, Family: true, NoRace: true, Quick: quick, Thorough: thorough, ThoroughSecs: 1200, Real: s4Real, Stub: s4Stub}
+}
+
 func init() {
 	reg(&PropSpec{
 		ID: "C02",
 		Batches: []Batch{
-			{Pkg: "scen/s4", Scen: "rpc", Cfg: "", Seams: seamsS4, Family: true, NoRace: true, Quick: 3000, Thorough: 1000000, ThoroughSecs: 1500,
-				Real: []string{"generated clients and server adapters (generated at check time by the generator from /repo's working tree)", "v2/restli client path (newRequest, formatQueryUrl, Do, DoAndUnmarshal), v2/restli handler/router/Register* adapters", "v2/restlicodec readers and writers, batchkeyset, generated marshalers", "net/http: Client above the transport, Request.Write / ReadRequest / Response.Write / ReadResponse, ServeMux"},
-				Stub: []string{"TCP and net/http's per-connection server loop (simulated transport)", "resource implementations (generated MockResource driven by the choice stream)", "goroutine scheduling (token kernel)"}},
+			s4b("rpc", "", 20000, 1500000),
+			s4b("rpc", "mounts=bare+mux+prefix,bases=1", 15000, 800000),
+			s4b("rpc", "faults=lossy,mounts=bare+mux+prefix", 15000, 800000),
 		},
 		Rule:   "each run draws 1-3 resources of the binding family, a mounting, a resolver base, strict/lenient client, 1-4 caller tasks x 1-4 calls (method and every argument by reflection from the choice stream, strings over an alphabet of all ROR2/JSON/URL metacharacters), the resource's reply, and the schedule. A case is distinct by (resource, method, mounting) of the first call; non-trivial always.",
-		Assume: []string{"the binding family (family/family.manifest.json) bounds the 'programs' quantifier", "keep-alive, chunked transfer, 100-continue and HTTP/2 are not exercised (transport stub)", "sampled exploration"},
+		Assume: s4Assume,
+	})
+}
+
+func init() {
+	reg(&PropSpec{
+		ID: "C14",
+		Batches: []Batch{
+			s4b("tunnel", "", 15000, 1000000),
+			s4b("tunnel", "damage=1,strings=benign", 10000, 500000),
+		},
+		Rule:   "twin execution: each run draws 1-3 resources, 1-2 caller tasks x 1-3 calls; every call is issued through a client without tunnelling and then through one whose threshold is drawn from {1, len-1, len, len+1, 10^6, off} relative to the encoded query length of that call; second batch damages tunnelled requests (extra URL query, dropped query part, dropped body part, unknown part, empty query part). Distinct by (resource, method, threshold class).",
+		Assume: s4Assume,
+	})
+}
+
+func init() {
+	reg(&PropSpec{
+		ID: "C08",
+		Batches: []Batch{
+			s4b("rpc", "outcomes=errors", 20000, 1500000),
+			s4b("rpc", "outcomes=errors,mounts=bare+mux+prefix,strings=benign", 8000, 500000),
+		},
+		Rule:   "as C02, but the resource's outcome for every call is drawn from {value, value with overridden status, *ErrorResponse with a random subset of its ten fields set (incl. none), plain error, panic, typed-nil entity with nil error}; up to two *ErrorResponse objects are shared by all calls of a run (1-4 concurrent callers). Distinct by (resource, method, mounting) of the first call.",
+		Assume: s4Assume,
 	})
 }
 
